@@ -98,13 +98,15 @@ theorem run_exact (P : Picker ρ α) (minK : Nat) (hm : 1 ≤ minK) (hist : Hist
 def kernelSum (K : Point Rat → Point Rat → Rat) (q : Point Rat) (pts : List (Point Rat)) : Rat :=
   (pts.map (fun p => K p q)).sum
 
+theorem estWeight_rat (h : Nat) : (estWeight h : Rat) = if h < 31 then ((2 ^ h : Nat) : Rat) else -((2 ^ 31 : Nat) : Rat) := rfl
+
 theorem estLevel_rat (K : Point Rat → Point Rat → Rat) (q : Point Rat) (n h : Nat) (acc : Rat) (lvl : Level Rat) :
-    estLevel K q n h acc lvl = acc + ((2 ^ h : Nat) : Rat) * kernelSum K q lvl / (n : Rat) := by
+    estLevel K q n h acc lvl = acc + (estWeight h : Rat) * kernelSum K q lvl / (n : Rat) := by
   induction lvl generalizing acc with
   | nil => simp [estLevel, kernelSum]
   | cons p l ih =>
     have : estLevel K q n h acc (p :: l) =
-        estLevel K q n h (acc + ((2 ^ h : Nat) : Rat) * K p q / (n : Rat)) l := rfl
+        estLevel K q n h (acc + (estWeight h : Rat) * K p q / (n : Rat)) l := rfl
     rw [this, ih]
     simp only [kernelSum, List.map_cons, List.sum_cons]
     ring
@@ -117,14 +119,20 @@ theorem kernelSum_nonneg (K : Point Rat → Point Rat → Rat) (hK : ∀ p q, 0 
     simp only [kernelSum, List.map_cons, List.sum_cons]
     exact add_nonneg (hK p q) ih
 
+theorem estWeight_nonneg (h : Nat) (hh : h < 31) : 0 ≤ (estWeight h : Rat) := by
+  rw [estWeight_rat, if_pos hh]; exact Nat.cast_nonneg _
+
+/-- non-negative as long as every height is below 31 (where `1 << height` is still a positive `int`) -/
 theorem estFrom_nonneg (K : Point Rat → Point Rat → Rat) (hK : ∀ p q, 0 ≤ K p q) (q : Point Rat) (n h : Nat) (acc : Rat)
-    (ha : 0 ≤ acc) (ls : List (Level Rat)) : 0 ≤ estFrom K q n h acc ls := by
+    (ha : 0 ≤ acc) (ls : List (Level Rat)) (hL : h + ls.length ≤ 31) : 0 ≤ estFrom K q n h acc ls := by
   induction ls generalizing h acc with
   | nil => exact ha
   | cons l r ih =>
     simp only [estFrom]
+    simp only [List.length_cons] at hL
     apply ih
-    rw [estLevel_rat]
-    exact add_nonneg ha (div_nonneg (mul_nonneg (Nat.cast_nonneg _) (kernelSum_nonneg K hK q l)) (Nat.cast_nonneg _))
+    · rw [estLevel_rat]
+      exact add_nonneg ha (div_nonneg (mul_nonneg (estWeight_nonneg h (by omega)) (kernelSum_nonneg K hK q l)) (Nat.cast_nonneg _))
+    · omega
 
 end DS.Density
